@@ -86,7 +86,7 @@ def prepare(repo):
         import Cython  # noqa: F401
 
         h = hashlib.sha256(open(pyx, "rb").read()).hexdigest()[:16]
-        out_dir = os.path.join(SCRATCH, "pyx-" + h)
+        out_dir = os.path.join(SCRATCH, "pyx-" + h + "-O1-ndebug")
         cgen = os.path.join(out_dir, "compiled.c")
         if not os.path.exists(os.path.join(out_dir, _so_name())):
             os.makedirs(out_dir, exist_ok=True)
@@ -104,20 +104,45 @@ def prepare(repo):
     if os.path.exists(c) and (not os.path.exists(so) or os.path.getmtime(c) > os.path.getmtime(so) + 2):
         h = hashlib.sha256(open(c, "rb").read()).hexdigest()[:16]
         try:
-            return _gcc(c, os.path.join(SCRATCH, "c-" + h)), "rebuilt with gcc from compiled.c (newer than the .so in the tree)"
+            # the directory name carries the build flags: a cached build made with other flags (e.g. without
+            # -DNDEBUG, whose CPython assertions abort the interpreter) must not be picked up
+            return _gcc(c, os.path.join(SCRATCH, "c-" + h + "-O1-ndebug")), "rebuilt with gcc from compiled.c (newer than the .so in the tree)"
         except Exception as e:
             return None, "gcc rebuild failed (%s); using the binary in the tree" % e
     return None, "binary in the tree (no Cython here; compiled.c is not newer than it)"
+
+
+class _CompiledFinder:
+    """Meta-path finder answering `orso.compute.compiled` with the chosen binary.
+
+    `orso/__init__.py` imports `orso.row`, which binds `from_bytes_cython` / `extract_dict_columns` with a
+    module-level `from orso.compute.compiled import …` (so do `orso.display` and `orso.converters`): replacing
+    the `sys.modules` entry *after* `import orso.compute` leaves those names bound to the binary in the tree.
+    Answering the import itself makes every importer see the same (rebuilt) binary."""
+
+    def __init__(self, path):
+        self.path = path
+
+    def find_spec(self, fullname, path=None, target=None):
+        if fullname != "orso.compute.compiled":
+            return None
+        return importlib.util.spec_from_file_location(fullname, self.path)
 
 
 def preload(repo):
     """Make `orso.compute.compiled` resolve to the chosen binary. Returns a description for the evidence."""
     path, how = prepare(repo)
     if path:
-        import orso.compute  # noqa: F401  (package must exist before the submodule is registered)
+        already = [m for m in sys.modules if m == "orso" or m.startswith("orso.")]
+        sys.meta_path[:] = [f for f in sys.meta_path if not isinstance(f, _CompiledFinder)]
+        sys.meta_path.insert(0, _CompiledFinder(path))
+        if already:
+            # orso was imported before the binary was chosen: drop it so that every module-level
+            # `from orso.compute.compiled import …` is executed again against the chosen binary
+            for m in already:
+                del sys.modules[m]
+        import orso.compute.compiled as mod  # noqa: F401
 
-        spec = importlib.util.spec_from_file_location("orso.compute.compiled", path)
-        mod = importlib.util.module_from_spec(spec)
-        sys.modules["orso.compute.compiled"] = mod
-        spec.loader.exec_module(mod)
+        if os.path.realpath(getattr(mod, "__file__", "")) != os.path.realpath(path):
+            how += " (WARNING: preload ineffective, %s is loaded)" % getattr(mod, "__file__", "?")
     return how
